@@ -23,7 +23,7 @@ The check
      variables, Zero-with-free-index branches, mixed elements, measures with subdomain ids and
      metadata, several integrals, ExternalOperator / Interpolate, derivative / action / adjoint /
      lhs / rhs) and seeded random scripts over a richer instruction set: every (program, offset
-     vector, PYTHONHASHSEED) runs in its own process (a fork of a pristine interpreter started with
+     vector, PYTHONHASHSEED) runs in a fresh interpreter started with
      that hash seed) that first performs the counter-shifting history and then builds the form by
      the same recipe; all signatures of one program must be identical.  Every discrepancy is
      diagnosed (which counter alone reproduces it; which terminal hashdata / which operand order
@@ -33,10 +33,8 @@ The check
 from __future__ import annotations
 
 import copy
-import gc
 import json
 import os
-import queue
 import random
 import subprocess
 import sys
@@ -49,7 +47,7 @@ KINDS = KINDS5 + ["BaseFormOperator"]
 
 # =================================================================================================
 # PART 1.  Real-code side.  Everything in this part runs inside a worker interpreter (started with a
-# given PYTHONHASHSEED) or inside a child forked from it (one child per job).
+# given PYTHONHASHSEED) that executes one chain of steps and exits.
 # =================================================================================================
 
 
@@ -399,6 +397,18 @@ def r_zero_operand_order(E):
 
 
 @recipe
+def r_zero_operand_order_asym(E):
+    """As above, but the two operands also differ in a place cmp_expr looks at AFTER the Zero."""
+    ufl, (m,) = _std(E)
+    f, f2 = ufl.Coefficient(E.space(m)), ufl.Coefficient(E.space(m))
+    g, h = ufl.Coefficient(E.space(m, "v")), ufl.Coefficient(E.space(m, "v"))
+    i, j = ufl.Index(), ufl.Index()
+    a = ufl.conditional(ufl.lt(f, 0), 0 * g[i], g[i]) * h[i]
+    b = ufl.conditional(ufl.lt(f2, 0), 0 * g[j], g[j]) * h[j]
+    return {"form": ufl.sin(a) * ufl.sin(b) * ufl.dx}
+
+
+@recipe
 def r_zero_tensor_branch(E):
     ufl, (m,) = _std(E)
     f, g = ufl.Coefficient(E.space(m)), ufl.Coefficient(E.space(m, "v"))
@@ -599,8 +609,18 @@ def expr_renumbering(e):
     return ren
 
 
-def signatures(outputs):
+def with_renumbered(outputs):
+    """Every output and its image under renumber_indices."""
     from ufl.algorithms.renumbering import renumber_indices
+
+    out = {}
+    for name, obj in outputs.items():
+        out[name] = obj
+        out[name + "|renumber_indices"] = renumber_indices(obj)
+    return out
+
+
+def signatures(outputs):
     from ufl.algorithms.signature import compute_expression_signature
     from ufl.classes import Form
 
@@ -608,16 +628,22 @@ def signatures(outputs):
     for name, obj in outputs.items():
         if isinstance(obj, Form):
             sigs[name] = obj.signature()
-            sigs[name + "|renumber_indices"] = renumber_indices(obj).signature()
         else:
             sigs[name] = compute_expression_signature(obj, expr_renumbering(obj))
-            r = renumber_indices(obj)
-            sigs[name + "|renumber_indices"] = compute_expression_signature(r, expr_renumbering(r))
     return sigs
 
 
-def _decider(a, b):
-    """The comparison that decides cmp_expr(a, b): walk both expressions the way cmp_expr does."""
+def _digits(t):
+    import re
+
+    return [int(x) for x in re.findall(r"\d+", t)]
+
+
+def _decider(a, b, diag=False):
+    """The comparison that decides cmp_expr(a, b): walk both expressions the way cmp_expr does.  For a
+    deciding pair of terminals: which number of the two reprs differs first (`field`: "count" = the
+    last number, the terminal's own counter; "index" for a Zero; "mesh" otherwise) and whether the
+    two numbers have a different number of digits (`crosses`)."""
     from ufl.sorting import cmp_expr
 
     stack = [(a, b)]
@@ -628,7 +654,19 @@ def _decider(a, b):
         if x._ufl_is_terminal_:
             c = cmp_expr(x, y)
             if c:
-                return {"by": "terminal", "cls": [type(x).__name__], "a": repr(x)[-120:], "b": repr(y)[-120:], "c": c}
+                rx, ry = repr(x), repr(y)
+                dx, dy = _digits(rx), _digits(ry)
+                field, crosses = "other", False
+                if len(dx) == len(dy):
+                    diff = [i for i, (p, q) in enumerate(zip(dx, dy)) if p != q]
+                    if diff:
+                        i = diff[0]
+                        crosses = len(str(dx[i])) != len(str(dy[i]))
+                        field = "index" if type(x).__name__ == "Zero" else "count" if i == len(dx) - 1 and hasattr(x, "count") else "mesh"
+                r = {"by": "terminal", "cls": [type(x).__name__], "field": field, "crosses": crosses}
+                if diag:
+                    r.update(a=rx[-100:], b=ry[-100:], c=c)
+                return r
         else:
             xo, yo = x.ufl_operands, y.ufl_operands
             stack.extend((r, s) for r, s in zip(xo, yo) if r is not s)
@@ -637,7 +675,7 @@ def _decider(a, b):
     return {"by": "tie", "cls": []}
 
 
-def dump(outputs):
+def dump(outputs, diag=False):
     """Structure of every output with the terminal hashdata the signature uses and, for the
     commutative nodes, the terminal comparison that decided the operand order."""
     from ufl.algorithms.signature import compute_terminal_hashdata
@@ -665,12 +703,56 @@ def dump(outputs):
             else:
                 r = ["O", type(e).__name__, [rec(o) for o in e.ufl_operands]]
                 if isinstance(e, Sum | Product):
-                    r.append(_decider(*e.ufl_operands))
+                    r.append(_decider(*e.ufl_operands, diag=diag))
             memo[k] = r
             return r
 
         out[name] = [[label, rec(e)] for label, e in parts]
     return out
+
+
+def _terminals(d, acc):
+    if d[0] == "T":
+        acc.append((d[1], d[2]))
+    else:
+        for o in d[2]:
+            _terminals(o, acc)
+
+
+def _erase_zero(d):
+    """terminal key used for matching nodes of two dumps: the raw index counts of a Zero and the
+    numbers given to free indices (they follow the traversal order) are erased."""
+    if d[1] == "Zero" and len(d) > 3:
+        return f"Zero/{d[3]}"
+    if d[1] == "MultiIndex":
+        import re
+
+        return "MultiIndex:" + re.sub(r"-\d+", "i", d[2])
+    return d[1] + ":" + d[2]
+
+
+def _okey(d, memo):
+    """Order-insensitive key of a dumped node (operands of Sum/Product as a multiset)."""
+    k = id(d)
+    if k in memo:
+        return memo[k]
+    if d[0] == "T":
+        r = _erase_zero(d)
+    else:
+        ks = [_okey(o, memo) for o in d[2]]
+        if d[1] in ("Sum", "Product"):
+            ks = sorted(ks)
+        r = d[1] + "(" + ",".join(ks) + ")"
+    memo[k] = r
+    return r
+
+
+def _comm_nodes(d, memo, acc):
+    if d[0] == "O":
+        if d[1] in ("Sum", "Product"):
+            acc.setdefault(_okey(d, memo), []).append(([_okey(o, memo) for o in d[2]], d[3] if len(d) > 3 else None))
+        for o in d[2]:
+            _comm_nodes(o, memo, acc)
 
 
 def build_outputs(prog, E, counters):
@@ -693,12 +775,13 @@ def build_outputs(prog, E, counters):
 
 
 def execute_chain(job):
-    """Runs in a forked child of a pristine interpreter.  For every step: extend the prior history
+    """Runs in a fresh interpreter.  For every step: extend the prior history
     so that every counter named in `targets` stands at base + target (if it is already beyond:
     leave it, or skip the step when it is `exact`), run the program, record the observables and the
     effective shift of every counter at the moment the program started."""
     base = read_counters()
     out = []
+    table = {}
     for step in job["steps"]:
         cur = read_counters()
         targets = step.get("targets") or {}
@@ -712,20 +795,21 @@ def execute_chain(job):
         res = {"eff": {k: start[k] - base[k] for k in KINDS}}
         t0 = time.time()
         try:
-            outputs = build_outputs(step["program"], Env(), start)
+            outputs = with_renumbered(build_outputs(step["program"], Env(), start))
             res["sigs"] = signatures(outputs)
-            if step.get("diag"):
-                res["dump"] = dump(outputs)
+            # structure dumps, shared between the steps of the chain (most are identical)
+            res["dump"] = {nm: table.setdefault(json.dumps(d), len(table)) for nm, d in dump(outputs, bool(step.get("diag"))).items()}
             res["ok"] = True
         except Exception as e:  # noqa: BLE001
             res.update(ok=False, error=f"{type(e).__name__}: {e}"[:300], tb=traceback.format_exc()[-800:])
         res["t"] = round(time.time() - t0, 4)
         out.append(res)
-    return {"base": base, "steps": out}
+    return {"base": base, "steps": out, "dumps": list(table)}
 
 
 def worker_main():
-    """A pristine interpreter: import everything, then serve jobs; every job runs in a fork."""
+    """A fresh interpreter (started with the PYTHONHASHSEED of the chain): import ufl, read the
+    import-time counters, run ONE chain read from stdin, print the result."""
     import warnings
 
     warnings.simplefilter("ignore")
@@ -735,46 +819,14 @@ def worker_main():
     import ufl.algorithms.signature  # noqa: F401
     import vf.elements  # noqa: F401
 
-    hello = {
-        "hello": True,
-        "ufl_file": ufl.__file__,
-        "base": read_counters(),
-        "hashseed": os.environ.get("PYTHONHASHSEED"),
-        "hash_probe": hash("c12-probe"),
-        "pid": os.getpid(),
-    }
-    sys.stdout.write(json.dumps(hello) + "\n")
+    job = json.loads(sys.stdin.read())
+    try:
+        out = execute_chain(job)
+    except BaseException as e:  # noqa: BLE001
+        out = {"error": f"{type(e).__name__}: {e}"[:400], "tb": traceback.format_exc()[-1200:]}
+    out["hello"] = {"ufl_file": ufl.__file__, "hashseed": os.environ.get("PYTHONHASHSEED"), "hash_probe": hash("c12-probe")}
+    sys.stdout.write(json.dumps(out) + "\n")
     sys.stdout.flush()
-    gc.collect()
-    gc.freeze()
-    for line in sys.stdin:
-        line = line.strip()
-        if not line:
-            continue
-        job = json.loads(line)
-        r, w = os.pipe()
-        pid = os.fork()
-        if pid == 0:
-            try:
-                os.close(r)
-                gc.disable()
-                try:
-                    out = execute_chain(job)
-                    out["ok"] = True
-                except BaseException as e:  # noqa: BLE001
-                    out = {"ok": False, "error": f"{type(e).__name__}: {e}"[:400], "tb": traceback.format_exc()[-1200:]}
-                with os.fdopen(w, "w") as f:
-                    json.dump(out, f)
-            finally:
-                os._exit(0)
-        os.close(w)
-        with os.fdopen(r) as f:
-            data = f.read()
-        os.waitpid(pid, 0)
-        if not data:
-            data = json.dumps({"ok": False, "error": "child died without a result"})
-        sys.stdout.write(data + "\n")
-        sys.stdout.flush()
 
 
 # =================================================================================================
@@ -785,113 +837,75 @@ from .. import tlc  # noqa: E402
 from ..common import ROOT, MachineryError, main_wrapper  # noqa: E402
 
 
-class Worker:
-    def __init__(self, seed):
-        env = dict(os.environ)
-        env["PYTHONHASHSEED"] = str(seed)
-        env["PYTHONDONTWRITEBYTECODE"] = "1"
-        self.seed = str(seed)
-        self.p = subprocess.Popen(
-            [sys.executable, "-m", "vf.checks.c12", "--worker"],
-            cwd=ROOT,
-            env=env,
-            stdin=subprocess.PIPE,
-            stdout=subprocess.PIPE,
-            stderr=subprocess.DEVNULL,
-            text=True,
-            bufsize=1,
-        )
-        line = self.p.stdout.readline()
-        if not line:
-            raise MachineryError(f"worker with PYTHONHASHSEED={seed} did not start")
-        self.hello = json.loads(line)
-
-    def call(self, job):
-        self.p.stdin.write(json.dumps(job) + "\n")
-        self.p.stdin.flush()
-        line = self.p.stdout.readline()
-        if not line:
-            raise MachineryError(f"worker (seed {self.seed}) died")
-        return json.loads(line)
-
-    def close(self):
-        try:
-            self.p.stdin.close()
-            self.p.wait(timeout=10)
-        except Exception:  # noqa: BLE001
-            self.p.kill()
+MAX_WORKERS = 6  # 1 checking process + at most 6 interpreters running chains <= 8 python processes
 
 
-MAX_WORKERS = 3  # 1 checking process + 3 worker interpreters + 3 forked children <= 8 python processes
+def run_interpreter(chain):
+    """One chain in one fresh interpreter started with the hash seed of the chain."""
+    env = dict(os.environ)
+    env["PYTHONHASHSEED"] = str(chain["seed"])
+    env["PYTHONDONTWRITEBYTECODE"] = "1"
+    p = subprocess.run(
+        [sys.executable, "-m", "vf.checks.c12", "--worker"],
+        cwd=ROOT,
+        env=env,
+        input=json.dumps({"steps": chain["steps"]}),
+        capture_output=True,
+        text=True,
+        timeout=900,
+    )
+    line = p.stdout.strip().splitlines()[-1] if p.stdout.strip() else ""
+    if not line.startswith("{"):
+        raise MachineryError(f"interpreter (PYTHONHASHSEED={chain['seed']}) gave no result: rc={p.returncode} {p.stderr[-600:]}")
+    return json.loads(line)
 
 
 class Pool:
-    """Runs chains {"seed", "steps"}: worker interpreters started with the hash seed of the chain (at
-    most MAX_WORKERS alive), every chain in a fork of such a worker."""
+    """Runs chains {"seed", "steps"}: every chain in its own fresh interpreter (at most MAX_WORKERS at
+    a time) started with the hash seed of the chain."""
 
-    def __init__(self):
+    def __init__(self, workers=MAX_WORKERS):
         self.hellos = []
-        self.ufl_file = None
         self.base = None
         self.forks = 0
-        self.deadline = None
+        self.workers = workers
+        self.lock = threading.Lock()
 
-    def check_hello(self, h):
+    def check_hello(self, res):
         import ufl
 
+        h = res["hello"]
         if os.path.realpath(h["ufl_file"]) != os.path.realpath(ufl.__file__):
-            raise MachineryError(f"worker imports ufl from {h['ufl_file']}, the checking process from {ufl.__file__}")
-        b = {k: h["base"][k] for k in KINDS}
-        if self.base is None:
-            self.base = b
-        elif self.base != b:
-            raise MachineryError(f"import-time counters differ between interpreters: {self.base} vs {b}")
-        self.hellos.append({"hashseed": h["hashseed"], "hash_probe": h["hash_probe"]})
+            raise MachineryError(f"interpreter imports ufl from {h['ufl_file']}, the checking process from {ufl.__file__}")
+        if res.get("base"):
+            b = {k: res["base"][k] for k in KINDS}
+            if self.base is None:
+                self.base = b
+            elif self.base != b:
+                raise MachineryError(f"import-time counters differ between interpreters: {self.base} vs {b}")
+        self.hellos.append((h["hashseed"], h["hash_probe"]))
 
-    def run(self, chains):
-        results = [None] * len(chains)
-        by_seed = {}
-        for n, c in enumerate(chains):
-            by_seed.setdefault(str(c["seed"]), []).append(n)
-        units = queue.Queue()
-        for s, idx in by_seed.items():
-            size = max(1, min(60, -(-len(idx) // MAX_WORKERS)))
-            for k in range(0, len(idx), size):
-                units.put((s, idx[k : k + size]))
-        errors = []
-        lock = threading.Lock()
+    def run(self, chains, deadline=None):
+        from concurrent.futures import ThreadPoolExecutor
 
-        def serve():
-            while True:
-                try:
-                    s, idx = units.get_nowait()
-                except queue.Empty:
-                    return
-                try:
-                    w = Worker(s)
-                    try:
-                        with lock:
-                            self.check_hello(w.hello)
-                        for n in idx:
-                            if self.deadline is not None and time.time() > self.deadline:
-                                results[n] = {"ok": False, "error": "deadline", "deadline": True}
-                                continue
-                            results[n] = w.call({"steps": chains[n]["steps"]})
-                            with lock:
-                                self.forks += 1
-                    finally:
-                        w.close()
-                except Exception as e:  # noqa: BLE001
-                    errors.append(e)
+        def one(ch):
+            if deadline is not None and time.time() > deadline:
+                return {"error": "deadline", "deadline": True}
+            res = run_interpreter(ch)
+            with self.lock:
+                self.check_hello(res)
+                self.forks += 1
+            return res
 
-        ths = [threading.Thread(target=serve) for _ in range(min(MAX_WORKERS, units.qsize()))]
-        for t in ths:
-            t.start()
-        for t in ths:
-            t.join()
-        if errors:
-            raise MachineryError(f"worker pool: {type(errors[0]).__name__}: {errors[0]}")
-        return results
+        if not chains:
+            return []
+        with ThreadPoolExecutor(max_workers=self.workers) as ex:
+            try:
+                return list(ex.map(one, chains))
+            except MachineryError:
+                raise
+            except Exception as e:  # noqa: BLE001
+                raise MachineryError(f"interpreter pool: {type(e).__name__}: {e}")
 
 
 # ---- TLC -------------------------------------------------------------------------------------------
@@ -1009,45 +1023,6 @@ class Case:
         self.runs = []
 
 
-def _terminals(d, acc):
-    if d[0] == "T":
-        acc.append((d[1], d[2]))
-    else:
-        for o in d[2]:
-            _terminals(o, acc)
-
-
-def _erase_zero(d):
-    """terminal key used for matching nodes of two dumps: the raw index counts of a Zero are erased."""
-    if d[1] == "Zero" and len(d) > 3:
-        return f"Zero/{d[3]}"
-    return d[1] + ":" + d[2]
-
-
-def _okey(d, memo):
-    """Order-insensitive key of a dumped node (operands of Sum/Product as a multiset)."""
-    k = id(d)
-    if k in memo:
-        return memo[k]
-    if d[0] == "T":
-        r = _erase_zero(d)
-    else:
-        ks = [_okey(o, memo) for o in d[2]]
-        if d[1] in ("Sum", "Product"):
-            ks = sorted(ks)
-        r = d[1] + "(" + ",".join(ks) + ")"
-    memo[k] = r
-    return r
-
-
-def _comm_nodes(d, memo, acc):
-    if d[0] == "O":
-        if d[1] in ("Sum", "Product"):
-            acc.setdefault(_okey(d, memo), []).append(([_okey(o, memo) for o in d[2]], d[3] if len(d) > 3 else None))
-        for o in d[2]:
-            _comm_nodes(o, memo, acc)
-
-
 def compare_dumps(b, v):
     """Structural difference of two dumps of the same output: list of findings
     ("terminal-data", class) / ("operand-order", decider) / ("integral-order", None) / ..."""
@@ -1079,15 +1054,10 @@ def compare_dumps(b, v):
                     k = json.dumps([dec.get("by"), dec.get("cls")])
                     if k not in seen:
                         seen.add(k)
-                        found.append(("operand-order", dec))
+                        other = next((d for o, d in nb[key] if sorted(o) == sorted(ops) and o != ops and d), None)
+                        found.append(("operand-order", dict(dec, other=other) if other else dec))
                     break
     return found
-
-
-def _digits(s):
-    import re
-
-    return [int(x) for x in re.findall(r"\d+", s)]
 
 
 def fingerprint_of(finding, responsible, hashseed):
@@ -1105,8 +1075,8 @@ def fingerprint_of(finding, responsible, hashseed):
         if info["by"] != "terminal":
             return f"C12:operand-order-by-{info['by']}:{'+'.join(info['cls'])}:{resp}"
         cls = info["cls"][0]
-        da, db = _digits(info["a"]), _digits(info["b"])
-        boundary = len(da) == len(db) and any(x != y and len(str(x)) != len(str(y)) for x, y in zip(da, db))
+        other = info.get("other") or {}
+        boundary = bool(info.get("crosses") or other.get("crosses"))
         import ufl.classes as C
 
         if issubclass(getattr(C, cls, object), C.GeometricQuantity):
@@ -1122,8 +1092,47 @@ def fingerprint_of(finding, responsible, hashseed):
     return f"C12:{kind}:{resp}"
 
 
-def exact_chain(prog, eff, seed="0", diag=False):
-    return {"seed": str(seed), "steps": [{"program": prog, "targets": {k: int(eff.get(k, 0)) for k in KINDS}, "exact": True, "diag": diag}]}
+def exact_chain(prog, eff, seed="0", source=None, diag=False):
+    st = {"program": prog, "targets": {k: int(eff.get(k, 0)) for k in KINDS}, "exact": True}
+    if diag:
+        st["diag"] = True
+    if source:
+        st["source"] = source
+    return {"seed": str(seed), "steps": [st]}
+
+
+class Run:
+    """One run of a program: effective shift, hash seed, result of the step, its chain."""
+
+    __slots__ = ("eff", "seed", "res", "chain", "n", "dumps")
+
+    def __init__(self, eff, seed, res, chain, n, dumps):
+        self.eff, self.seed, self.res, self.chain, self.n, self.dumps = eff, str(seed), res, chain, n, dumps
+
+    @property
+    def ok(self):
+        return bool(self.res.get("ok"))
+
+    def sig(self, nm):
+        return self.res["sigs"][nm]
+
+    def dump(self, nm):
+        return json.loads(self.dumps[self.res["dump"][nm]])
+
+
+def guess_counter(finding):
+    """The counter a finding points at (verified afterwards in fresh processes)."""
+    kind, info = finding
+    if kind == "terminal-data":
+        return {"Zero": "Index", "MultiIndex": "Index", "Constant": "Constant", "Coefficient": "Coefficient", "Label": "Label"}.get(info, "Mesh")
+    if kind == "operand-order" and info.get("by") == "terminal":
+        cls = info["cls"][0]
+        if info.get("field") == "index":
+            return "Index"
+        if info.get("field") == "count" and cls in ("Constant", "Coefficient", "Label"):
+            return cls
+        return "Mesh"
+    return None
 
 
 class Checker:
@@ -1131,11 +1140,12 @@ class Checker:
         self.ctx, self.pool = ctx, pool
         self.reported = {}
         self.mech = {}
-        self.found = []
+        self.pending = {}  # preliminary mechanism -> [(case, base run, deviating run, output, finding)]
+        self.direct = []  # findings that need no reproduction (fingerprint, what, replay)
 
-    def run_chains(self, chains):
+    def run_chains(self, chains, deadline=None):
         """chains: [{"seed", "steps": [{"program", "source", "targets", ...}]}] -> {prog_key: Case}"""
-        results = self.pool.run(chains)
+        results = self.pool.run(chains, deadline)
         cases = {}
         for ch, res in zip(chains, results):
             if res.get("deadline"):
@@ -1148,114 +1158,179 @@ class Checker:
                     self.ctx.count("exact_steps_not_reachable")
                     continue
                 c = cases.setdefault(prog_key(st["program"]), Case(st["program"], st.get("source", "")))
-                c.runs.append((r.get("eff"), ch["seed"], r, ch, n))
+                c.runs.append(Run(r.get("eff"), ch["seed"], r, ch, n, res.get("dumps")))
         return cases
 
     def judge(self, case, count=True):
-        """All signatures of one program must be identical.  -> "invalid" | "ok"; findings are
-        appended to self.found."""
+        """All signatures of one program must be identical.  -> "invalid" | "ok" | "differs"; every
+        deviation is classified from the structure dumps and queued under its mechanism."""
         ctx = self.ctx
-        ok = [x for x in case.runs if x[2].get("ok")]
-        bad = [x for x in case.runs if not x[2].get("ok")]
+        ok = [x for x in case.runs if x.ok]
+        bad = [x for x in case.runs if not x.ok]
         if not ok:
             return "invalid"
+        verdict = "ok"
+        base = ok[0]
         if bad:
             fp = "C12:exception-depends-on-counters-or-seed"
             b = bad[0]
-            self.found.append((fp, f"{show_prog(case.prog)} builds after history {off_str(ok[0][0])} but raises {b[2].get('error')} after {off_str(b[0])} (seed {b[1]})", self._chain_replay(case, [ok[0], b], fp, None)))
-        base = ok[0]
-        names = sorted(base[2]["sigs"])
-        deviating = {}
+            self.direct.append((fp, f"{show_prog(case.prog)} builds after history {off_str(base.eff)} but raises {b.res.get('error')} after {off_str(b.eff)} (seed {b.seed})", self._chain_replay(case, [base, b], fp, None)))
+            verdict = "differs"
+        names = sorted(base.res["sigs"])
+        seen = {}
         for run in ok:
-            eff, s, r = run[0], run[1], run[2]
             if count:
                 ctx.evaluated(len(names))
-                if any(eff.values()) or str(s) != "0":
-                    ctx.distinct(prog_key(case.prog) + json.dumps(eff, sort_keys=True) + str(s))
-            if sorted(r["sigs"]) != names:
+                if any(run.eff.values()) or run.seed != "0":
+                    ctx.distinct(prog_key(case.prog) + json.dumps(run.eff, sort_keys=True) + run.seed)
+            if sorted(run.res["sigs"]) != names:
                 fp = "C12:outputs-depend-on-counters-or-seed"
-                self.found.append((fp, f"{show_prog(case.prog)}: different set of outputs", self._chain_replay(case, [base, run], fp, None)))
+                self.direct.append((fp, f"{show_prog(case.prog)}: different set of outputs", self._chain_replay(case, [base, run], fp, None)))
+                verdict = "differs"
                 continue
             for nm in names:
-                if r["sigs"][nm] != base[2]["sigs"][nm]:
-                    deviating.setdefault(nm, {}).setdefault(r["sigs"][nm], run)
-        if deviating:
-            self.found += self.diagnose(case, base, deviating)
-        return "ok"
+                if run.sig(nm) != base.sig(nm) and (nm, run.sig(nm)) not in seen:
+                    seen[(nm, run.sig(nm))] = run
+        if seen:
+            verdict = "differs"
+            keys = set()
+            for (nm, _), run in sorted(seen.items(), key=lambda kv: (kv[0][0], sum(1 for v in kv[1].eff.values() if v))):
+                for f in classify(nm, base.dump, run.dump):
+                    key = prelim_key(f, run.seed != base.seed and run.eff == base.eff)
+                    if (key, nm.split("|")[0]) in keys:
+                        continue  # the same mechanism on the same output (e.g. after renumber_indices)
+                    keys.add((key, nm.split("|")[0]))
+                    self.pending.setdefault(key, []).append((case, base, run, nm, f))
+            for key in {k for k, _ in keys}:
+                self.mech[key] = self.mech.get(key, 0) + 1
+        return verdict
 
     def _chain_replay(self, case, runs, fp, output):
         chains = []
-        for eff, s, r, ch, n in runs:
-            chains.append({"seed": ch["seed"], "steps": [{k: v for k, v in st.items() if k != "source"} for st in ch["steps"][: n + 1]], "observe": n})
+        for r in runs:
+            chains.append({"seed": r.chain["seed"], "steps": [{k: v for k, v in st.items() if k != "source"} for st in r.chain["steps"][: r.n + 1]], "observe": r.n})
         return {"mode": "chains", "program": case.prog, "fingerprint": fp, "output": output, "chains": chains}
 
-    def diagnose(self, case, base, deviating):
-        """deviating: output name -> {signature: first run with it}.  The deviation is reproduced in
-        fresh processes whose history is exactly the effective shift (one step each), attributed to the
-        hash seed or to the counters that reproduce it alone, and classified from the hashdata dumps."""
-        picks = {}
-        for nm, d in sorted(deviating.items()):
-            for sig, run in d.items():
-                picks.setdefault((json.dumps(run[0], sort_keys=True), str(run[1])), (run, []))[1].append(nm)
-        out = []
-        prog = case.prog
-        for run, names in list(picks.values())[:3]:
-            eff, s = run[0], str(run[1])
-            singles = [k for k in KINDS if eff.get(k)]
-            chains = [exact_chain(prog, ZERO, "0", True), exact_chain(prog, eff, "0", True), exact_chain(prog, ZERO, s, True), exact_chain(prog, base[0], "0", True)]
-            chains += [exact_chain(prog, dict(ZERO, **{k: eff[k]}), "0") for k in singles]
-            res = [x["steps"][0] if x.get("steps") else x for x in self.pool.run(chains)]
-            if not all(x.get("ok") for x in res):
-                raise MachineryError(f"diagnosis run failed for {show_prog(prog)}: {[x.get('error') for x in res]}")
-            a0, bo, cs, d0 = res[:4]
-            for nm in names:
-                if bo["sigs"][nm] != a0["sigs"][nm]:
-                    var, var_chain, by = bo, chains[1], "history"
-                elif cs["sigs"][nm] != a0["sigs"][nm]:
-                    var, var_chain, by = cs, chains[2], "seed"
-                elif d0["sigs"][nm] != a0["sigs"][nm]:
-                    var, var_chain, by = d0, chains[3], "history"
-                    singles = []
-                else:
-                    fp = "C12:process-state:signature-depends-on-earlier-work-in-the-process"
-                    out.append((fp, f"{show_prog(prog)}: output {nm!r} has signature {run[2]['sigs'][nm][:12]} in a process that ran other steps before, {a0['sigs'][nm][:12]} in fresh processes with the same counters and hash seed", self._chain_replay(case, [base, run], fp, nm)))
+    def settle(self, per_mechanism):
+        """For every preliminary mechanism reproduce the smallest failing programs in fresh processes
+        whose history shifts a single counter (or, failing that, all of them / only the hash seed),
+        and report them with the final fingerprint."""
+        for fp, what, rep in self.direct:
+            if self.reported.get(fp, 0) < 2:
+                self.ctx.violation(fp, what, rep)
+            self.reported[fp] = self.reported.get(fp, 0) + 1
+            self.mech[fp] = self.mech.get(fp, 0) + 1
+        self.direct = []
+        for key in sorted(self.pending):
+            items = sorted(self.pending[key], key=lambda it: (len(prog_key(it[0].prog)), it[3]))
+            done = 0
+            progs = set()
+            for case, base, run, nm, f in items:
+                if done >= per_mechanism or self.reported.get(key, 0) >= 2:
+                    break
+                if prog_key(case.prog) in progs:
                     continue
-                responsible = {k for k, x in zip(singles, res[4:]) if x["sigs"][nm] != a0["sigs"][nm]} if by == "history" else set()
-                out_nm = nm.split("|")[0]
-                finds = compare_dumps(a0["dump"][out_nm], var["dump"][out_nm]) or [("unclassified", None)]
-                for f in finds:
-                    fp = fingerprint_of(f, responsible, hashseed=by == "seed")
-                    v_eff = var["eff"]
-                    what = (
-                        f"{show_prog(prog)}: signature of output {nm!r} is {a0['sigs'][nm][:12]} in a fresh process and {var['sigs'][nm][:12]} "
-                        + (f"after the prior history {off_str(v_eff)}" if by == "history" else f"with PYTHONHASHSEED={s}")
-                        + (f"; counters that reproduce it alone: {sorted(responsible) or 'none (combination)'}" if by == "history" else "")
-                        + f"; mechanism: {f[0]}" + (f" {json.dumps(f[1])}" if f[1] else "")
-                    )
-                    rep = {
-                        "mode": "chains",
-                        "program": prog,
-                        "fingerprint": fp,
-                        "output": nm,
-                        "chains": [dict(chains[0], observe=0), dict(var_chain, observe=0)],
-                        "observed": [a0["sigs"][nm], var["sigs"][nm]],
-                    }
-                    out.append((fp, what, rep))
-        return out
+                progs.add(prog_key(case.prog))
+                fp, what, rep = self.reproduce(case, base, run, nm, f)
+                self.ctx.violation(fp, what, rep)
+                self.reported[key] = self.reported.get(key, 0) + 1
+                if fp != key:
+                    self.mech[fp] = self.mech.get(fp, 0) + 1
+                done += 1
+        self.pending = {}
 
-    def report(self):
-        """Report at most two (smallest) failing inputs per fingerprint."""
-        by = {}
-        for fp, what, rep in self.found:
-            by.setdefault(fp, []).append((fp, what, rep))
-        self.found = []
-        for fp, cases in sorted(by.items()):
-            cases.sort(key=lambda c: len(json.dumps(c[2]["program"])))
-            self.mech[fp] = self.mech.get(fp, 0) + len(cases)
-            n = self.reported.get(fp, 0)
-            for fp_, what, rep in cases[: max(0, 2 - n)]:
-                self.ctx.violation(fp_, what, rep)
-            self.reported[fp] = n + len(cases)
+    def reproduce(self, case, base, run, nm, f):
+        prog = case.prog
+        K = guess_counter(f)
+
+        def first(chains):
+            out = []
+            for x in self.pool.run(chains):
+                st = x["steps"][0] if x.get("steps") else x
+                if st.get("ok"):
+                    st["dumps"] = x["dumps"]
+                out.append(st)
+            return out
+
+        def dump_of(st):
+            return lambda name: json.loads(st["dumps"][st["dump"][name]])
+
+        def need(res, what):
+            if not all(x.get("ok") for x in res):
+                raise MachineryError(f"reproduction of {show_prog(prog)} failed ({what}): {[x.get('error') for x in res]}")
+
+        # stage 1: a fresh process without history, and one that only shifts the suspected counter
+        cands = []
+        for r in (run, base):
+            if K and r.eff.get(K):
+                cands.append((r, {K: r.eff[K]}, "0"))
+        chains = [exact_chain(prog, ZERO, diag=True)] + [exact_chain(prog, e, s, diag=True) for _, e, s in cands]
+        res = first(chains)
+        need(res, "stage 1")
+        a0 = res[0]
+        hit = next(((c, ch, x) for c, ch, x in zip(cands, chains[1:], res[1:]) if x["sigs"][nm] != a0["sigs"][nm]), None)
+        by, responsible = "history", {K}
+        if hit is None:
+            # stage 2: the complete shift of either run, or only its hash seed
+            cands = [(r, r.eff, "0") for r in (run, base) if any(r.eff.values())] + [(r, ZERO, r.seed) for r in (run, base) if r.seed != "0"]
+            chains2 = [exact_chain(prog, e, s, diag=True) for _, e, s in cands]
+            res2 = first(chains2)
+            need(res2, "stage 2")
+            hit = next(((c, ch, x) for c, ch, x in zip(cands, chains2, res2) if x["sigs"][nm] != a0["sigs"][nm]), None)
+            if hit is None:
+                fp = "C12:process-state:signature-depends-on-earlier-work-in-the-process"
+                return fp, f"{show_prog(prog)}: output {nm!r} has signatures {base.sig(nm)[:12]} / {run.sig(nm)[:12]} in processes that ran other steps before, {a0['sigs'][nm][:12]} in every fresh process with the same counters and hash seed", self._chain_replay(case, [base, run], fp, nm)
+            (r, e, sd), _, _ = hit
+            if sd != "0":
+                by, responsible = "seed", set()
+            else:
+                nz = [k for k in KINDS if e.get(k)]
+                res3 = first([exact_chain(prog, {k: e[k]}) for k in nz])
+                need(res3, "stage 3")
+                responsible = {k for k, x in zip(nz, res3) if x["sigs"][nm] != a0["sigs"][nm]}
+        (r, e, sd), var_chain, var = hit
+        # the mechanism as it shows between the two fresh processes of the replay
+        f = next((g for g in classify(nm, dump_of(a0), dump_of(var)) if g[0] == f[0]), f)
+        fp = fingerprint_of(f, responsible, hashseed=by == "seed")
+        what = (
+            f"{show_prog(prog)}: signature of output {nm!r} is {a0['sigs'][nm][:12]} in a fresh process and {var['sigs'][nm][:12]} "
+            + (f"after the prior history {off_str(var['eff'])}" if by == "history" else f"with PYTHONHASHSEED={sd}")
+            + (f"; counters that reproduce it alone: {sorted(responsible) or 'none (only the combination)'}" if by == "history" else "")
+            + f"; mechanism: {f[0]}"
+            + (f" {json.dumps(f[1])}" if f[1] else "")
+        )
+        rep = {
+            "mode": "chains",
+            "program": prog,
+            "fingerprint": fp,
+            "output": nm,
+            "chains": [dict(chains[0], observe=0), dict(var_chain, observe=0)],
+            "observed": [a0["sigs"][nm], var["sigs"][nm]],
+        }
+        return fp, what, rep
+
+
+def classify(nm, get_b, get_v):
+    """Findings for output nm between two runs; an output after renumber_indices inherits the digit
+    boundary information of the operand comparison from the output before renumbering (the
+    renumbered Zero no longer shows the counts that were compared when the form was built)."""
+    finds = compare_dumps(get_b(nm), get_v(nm))
+    if "|" in nm:
+        pre = [g for g in compare_dumps(get_b(nm.split("|")[0]), get_v(nm.split("|")[0])) if g[0] == "operand-order"]
+        for f in finds:
+            if f[0] == "operand-order" and f[1].get("by") == "terminal":
+                for g in pre:
+                    if g[1].get("cls") == f[1].get("cls") and (g[1].get("crosses") or (g[1].get("other") or {}).get("crosses")):
+                        f[1]["crosses"] = True
+        if not finds:
+            finds = pre
+    return finds or [("unclassified", None)]
+
+
+def prelim_key(finding, seed_only):
+    """Mechanism name before the reproduction in fresh processes (counter = the one the finding points at)."""
+    K = guess_counter(finding)
+    return fingerprint_of(finding, {K} if K else set(), hashseed=seed_only)
 
 
 # ---- histories -----------------------------------------------------------------------------------------
@@ -1486,19 +1561,18 @@ def plan_models(ctx):
         intended = [
             Job("intended/const-family", FAM_CONST, "numeric", "renumbered", 2, 6, workers=w),
             Job("intended/index-family", FAM_INDEX, "numeric", "renumbered", 2, 9, workers=w),
-            Job("intended/small-family", FAM_SMALL, "numeric", "renumbered", 2, 6, workers=w),
+            Job("intended/small-family", FAM_SMALL, "numeric", "renumbered", 2, 5, workers=w),
         ]
         emit = [
-            Job("emit/const-family", FAM_CONST, comparator, zerosig, 2, 5, emit=True, cmp_of=cmp_of, workers=w),
-            Job("emit/index-family", FAM_INDEX, comparator, zerosig, 2, 8, emit=True, cmp_of=cmp_of, workers=w),
-            Job("emit/small-family", FAM_SMALL, comparator, zerosig, 1, 6, emit=True, cmp_of=cmp_of, workers=w),
+            Job("emit/const-family", FAM_CONST, comparator, zerosig, 1, 5, emit=True, cmp_of=cmp_of, workers=w),
+            Job("emit/index-family", FAM_INDEX, comparator, zerosig, 1, 8, emit=True, cmp_of=cmp_of, workers=w),
+            Job("emit/small-family", FAM_SMALL, comparator, zerosig, 1, 5, emit=True, cmp_of=cmp_of, workers=w),
         ]
     coded = [
         Job("as-coded/comparator-by-repr/const-family", FAM_CONST, "repr", "renumbered", 1, 4, workers=w),
         Job("as-coded/zero-hashdata-raw/index-family", FAM_INDEX, "numeric", "raw", 1, 8, workers=w),
-        Job("as-coded/comparator-by-repr-on-zero/index-family", FAM_INDEX, "repr", "renumbered", 1, 8, workers=w),
     ]
-    return intended, emit, coded
+    return intended, emit, coded, (comparator, cmp_of, zerosig)
 
 
 def check_intended(ctx, job):
@@ -1511,38 +1585,37 @@ def check_intended(ctx, job):
         raise MachineryError(f"{job.label}: suspiciously small state graph ({res.distinct} states, depth {res.depth})")
 
 
-def replay_coded(ctx, chk, job):
-    """A counterexample of the machine as coded is replayed on the real code."""
-    res = job.res
-    ctx.add_tlc(res)
-    info = {"model": job.label, "tlc": res.outcome, "violated": res.violated}
-    if res.outcome != "invariant" or res.violated != "SigInvariant" or not res.trace:
-        raise MachineryError(f"{job.label}: the machine as coded must violate SigInvariant, TLC says {res.outcome} {res.violated}\n" + res.stdout[-1500:])
-    script, off = trace_case(res)
-    prog = {"kind": "script", "script": clean_script(script)}
-    chains = [dict(exact_chain(prog, ZERO), steps=[dict(exact_chain(prog, ZERO)["steps"][0], source="tlc-counterexample")]), exact_chain(prog, off)]
-    chains[1]["steps"][0]["source"] = "tlc-counterexample"
+def replay_coded(ctx, chk, jobs):
+    """The counterexamples of the machines as coded are replayed on the real code."""
+    infos, chains = [], []
+    for job in jobs:
+        res = job.res
+        ctx.add_tlc(res)
+        if res.outcome != "invariant" or res.violated != "SigInvariant" or not res.trace:
+            raise MachineryError(f"{job.label}: the machine as coded must violate SigInvariant, TLC says {res.outcome} {res.violated}\n" + res.stdout[-1500:])
+        script, off = trace_case(res)
+        prog = {"kind": "script", "script": clean_script(script)}
+        infos.append({"model": job.label, "tlc": res.outcome, "violated": res.violated, "counterexample": show_prog(prog), "history": off_str(off), "_prog": prog})
+        chains += [exact_chain(prog, ZERO, source="tlc-counterexample"), exact_chain(prog, off, source="tlc-counterexample")]
     cases = chk.run_chains(chains)
-    (case,) = cases.values()
-    ctx.traces(1)
-    sigs = [r[2].get("sigs", {}).get("form") for r in case.runs]
-    info.update(counterexample=show_prog(prog), history=off_str(off), real_signatures=[s[:12] if s else None for s in sigs])
-    if len(sigs) != 2 or None in sigs:
-        raise MachineryError(f"{job.label}: counterexample {show_prog(prog)} could not be replayed: {[r[2].get('error') for r in case.runs]}")
-    info["reproduced_in_real_code"] = sigs[0] != sigs[1]
-    if sigs[0] != sigs[1]:
-        ctx.count("coded_model_counterexamples_reproduced")
-        print(f"  as-coded model counterexample reproduced in the real code: {show_prog(prog)} after history {off_str(off)}", flush=True)
-        chk.judge(case)
-    else:
-        ctx.count("coded_model_counterexamples_not_reproduced")
-        print(f"  as-coded model counterexample NOT reproduced (informational): {show_prog(prog)} after history {off_str(off)}", flush=True)
-    return info
+    for info in infos:
+        case = cases[prog_key(info.pop("_prog"))]
+        ctx.traces(1)
+        if len(case.runs) != 2 or not all(r.ok for r in case.runs):
+            raise MachineryError(f"{info['model']}: counterexample {info['counterexample']} could not be replayed: {[r.res.get('error') for r in case.runs]}")
+        info["real_signatures"] = [r.sig("form")[:12] for r in case.runs]
+        info["reproduced_in_real_code"] = chk.judge(case) == "differs"
+        if info["reproduced_in_real_code"]:
+            ctx.count("coded_model_counterexamples_reproduced")
+            print(f"  as-coded model counterexample reproduced in the real code: {info['counterexample']} after history {info['history']}", flush=True)
+        else:
+            ctx.count("coded_model_counterexamples_not_reproduced")
+            print(f"  as-coded model counterexample NOT reproduced (informational): {info['counterexample']} after history {info['history']}", flush=True)
+    return infos
 
 
-def conformance(ctx, chk, emit_jobs, rng, budget):
-    """Replay emitted behaviours: per script, the partition of the histories by real signature must
-    be the partition by model signature."""
+def emitted_scripts(ctx, emit_jobs):
+    """script key -> {"script", "offs": {offset tuple: model signature}} from the emission runs"""
     by_script = {}
     n_beh = 0
     for j in emit_jobs:
@@ -1559,76 +1632,110 @@ def conformance(ctx, chk, emit_jobs, rng, budget):
             by_script.setdefault(k, {"script": script, "offs": {}})["offs"][tuple(d["off"])] = json.dumps(d["sig"], sort_keys=True)
     ctx.cov["model_behaviours_emitted"] = n_beh
     ctx.cov["model_scripts_emitted"] = len(by_script)
-    zero5 = (0,) * 5
+    return by_script
+
+
+def model_signatures(ctx, base, transcription, observed):
+    """TLC evaluates the model signature of every observed (script, counter shift): the recorded
+    runs of the real code are validated against the specification."""
+    comparator, cmp_of, zerosig = transcription
+    scripts, sidx, cases = [], {}, []
+    for script, eff in observed:
+        k = json.dumps(script, sort_keys=True)
+        if k not in sidx:
+            sidx[k] = len(scripts) + 1
+            scripts.append([{"op": i["op"], "a": i.get("a", 0), "b": i.get("b", 0), "c": i.get("c", 0)} for i in script])
+        cases.append([sidx[k]] + [int(eff[k2]) for k2 in KINDS5])
+    mc = mc_text(base, FAM_SMALL, cmp_of).replace(
+        "====\n",
+        "Scripts == " + tlc.tla(scripts) + "\n"
+        "Cases == " + tlc.tla(cases) + "\n"
+        "CtrAt(c) == [Index |-> Base.Index + c[2], Coefficient |-> Base.Coefficient + c[3], Constant |-> Base.Constant + c[4], "
+        "Label |-> Base.Label + c[5], Mesh |-> Base.Mesh + c[6]]\n"
+        "SigAt(c) == SigFrom(Scripts[c[1]], CtrAt(c))\n"
+        "ASSUME PrintT(ToJson([sigs |-> [n \\in 1..Len(Cases) |-> SigAt(Cases[n])]]))\n"
+        "VInit == Init\nVNext == UNCHANGED vars\n====\n",
+    )
+    cfg = cfg_text(comparator, zerosig, 0, 0, False, []).replace("SPECIFICATION Spec\n", "INIT VInit\nNEXT VNext\n")
+    res = tlc.run("SigCounters", cfg, mc_text=mc, mc_name="MC_SigCounters", workers=1, timeout=900, env=TLC_ENV, heap=None)
+    ctx.add_tlc(res)
+    tlc.require_ok(res, "model signatures of the observed runs")
+    docs = tlc.decode_prints(res)
+    if not docs or len(docs[0]["sigs"]) != len(cases):
+        raise MachineryError("model signatures: TLC returned no table")
+    return [json.dumps(x, sort_keys=True) for x in docs[0]["sigs"]]
+
+
+def conformance(ctx, chk, emit_jobs, transcription, base, rng, budget, deadline=None, corrupt=False):
+    """Scripts enumerated by TLC are run on the real code under many histories; TLC then computes the
+    model signature for exactly the observed counter shifts; per script, the partition of the runs by
+    real signature must be the partition by model signature."""
+    by_script = emitted_scripts(ctx, emit_jobs)
     differing = sorted((k for k, v in by_script.items() if len(set(v["offs"].values())) > 1), key=lambda k: (len(k), k))
-    same = sorted(k for k in by_script if k not in set(differing))
     ctx.cov["model_scripts_with_history_dependent_signature"] = len(differing)
+    dset = set(differing)
+    same = sorted(k for k in by_script if k not in dset)
     rng.shuffle(same)
-    selected = []  # (script key, off tuple)
-    # scripts whose model signature depends on the history: the base run, one history per model
-    # signature class, and one more history of the base class
-    per = max(1, budget // 2 // max(1, len(differing))) if differing else 0
-    for k in differing:
-        offs = by_script[k]["offs"]
-        if zero5 not in offs:
-            continue
-        classes = {}
-        for o in sorted(offs):
-            classes.setdefault(offs[o], []).append(o)
-        pick = [zero5]
-        for sig, os_ in sorted(classes.items(), key=lambda kv: kv[1][0]):
-            cand = [o for o in os_ if o != zero5]
-            rng.shuffle(cand)
-            pick += cand[: 1 if sig != offs[zero5] else 1]
-        selected += [(k, o) for o in pick[: 1 + max(2, per)]]
-        if len(selected) > budget * 0.6:
-            break
-    for k in same:
-        if len(selected) >= budget:
-            break
-        offs = sorted(by_script[k]["offs"])
-        if zero5 not in by_script[k]["offs"]:
-            continue
-        others = [o for o in offs if o != zero5]
-        rng.shuffle(others)
-        selected += [(k, zero5)] + [(k, o) for o in others[:2]]
+    half = budget // 2
+    chosen = differing[:half] if len(differing) <= half else differing[: half // 2] + rng.sample(differing[half // 2 :], half - half // 2)
+    chosen += same[: budget - len(chosen)]
+    progs = [{"kind": "script", "script": by_script[k]["script"]} for k in chosen]
+    seeds = hash_seeds(ctx)
     chains = []
-    for k, o in selected:
-        prog = {"kind": "script", "script": by_script[k]["script"]}
-        ch = exact_chain(prog, dict(zip(KINDS5, o)))
-        ch["steps"][0]["source"] = "tlc-emitted"
-        chains.append(ch)
-    cases = chk.run_chains(chains)
-    mism = 0
+    G = 10
+    for k in range(0, len(progs), G):
+        grp = progs[k : k + G]
+        chains.append({"seed": seeds[len(chains) % len(seeds)], "steps": interleave([chain_standard(p, "tlc-emitted") + chain_phased(p, "tlc-emitted", rng, base) for p in grp])})
+    t1 = time.time()
+    cases = chk.run_chains(chains[:1])  # the first group (scripts with model-predicted differences) always runs
+    for k, c in chk.run_chains(chains[1:], deadline).items():
+        cases[k] = c
+    t2 = time.time()
+    observed, index = [], []
     for key, case in sorted(cases.items()):
-        script_key = json.dumps(case.prog["script"], sort_keys=True)
-        model = by_script[script_key]["offs"]
-        runs = [r for r in case.runs if r[2].get("ok")]
-        if len(runs) != len(case.runs):
-            raise MachineryError(f"emitted script {show_prog(case.prog)} does not build in the real ufl: {[r[2].get('error') for r in case.runs if not r[2].get('ok')]}")
-        ctx.traces(len(runs))
+        if not all(r.ok for r in case.runs):
+            raise MachineryError(f"emitted script {show_prog(case.prog)} does not build in the real ufl: {[r.res.get('error') for r in case.runs if not r.ok]}")
         chk.judge(case)
-        for x in range(len(runs)):
-            for y in range(x + 1, len(runs)):
-                ox = tuple(runs[x][0][k] for k in KINDS5)
-                oy = tuple(runs[y][0][k] for k in KINDS5)
+        seen = set()
+        for r in case.runs:
+            e5 = tuple(r.eff[k] for k in KINDS5)
+            if (e5, r.sig("form")) in seen:
+                continue
+            seen.add((e5, r.sig("form")))
+            observed.append((case.prog["script"], r.eff))
+            index.append((key, r))
+    if not observed:
+        raise MachineryError("conformance: no emitted script was run")
+    msigs = model_signatures(ctx, base, transcription, observed)
+    print(f"  conformance: {len(cases)} TLC-enumerated scripts, {sum(len(c.runs) for c in cases.values())} runs in {t2 - t1:.1f}s; TLC computed {len(observed)} model signatures in {time.time() - t2:.1f}s", flush=True)
+    if corrupt:  # selftest: pretend the model distinguishes every run
+        msigs = [m + str(n) for n, m in enumerate(msigs)]
+    per = {}
+    for (key, r), m in zip(index, msigs):
+        per.setdefault(key, []).append((r, m))
+    unexplained = 0
+    for key, rows in per.items():
+        ctx.traces(len(rows))
+        for x in range(len(rows)):
+            for y in range(x + 1, len(rows)):
                 ctx.evaluated()
-                m_eq = model[ox] == model[oy]
-                r_eq = runs[x][2]["sigs"]["form"] == runs[y][2]["sigs"]["form"]
+                m_eq = rows[x][1] == rows[y][1]
+                r_eq = rows[x][0].sig("form") == rows[y][0].sig("form")
                 if m_eq and not r_eq:
-                    ctx.count("real_dependence_not_explained_by_model")
-                    mism += 1
+                    unexplained += 1
                 elif r_eq and not m_eq:
                     raise MachineryError(
-                        f"conformance: SigCounters.tla (transcription {ctx.cov['code_under_test_transcription']}) predicts different signatures for "
-                        f"{show_prog(case.prog)} after histories {ox} and {oy}, the real signatures are equal: the transcription does not match the code under test"
+                        f"conformance: SigCounters.tla (transcription {transcription}) gives different signatures for "
+                        f"{show_prog(cases[key].prog)} after histories {off_str(rows[x][0].eff)} and {off_str(rows[y][0].eff)}, the real signatures are "
+                        "equal: the transcription does not match the code under test"
                     )
-    ctx.cov["conformance_replays"] = len(selected)
-    ctx.cov["conformance_scripts"] = len(cases)
-    if cases:
-        k0 = sorted(cases)[0]
-        ctx.sample({"kind": "tlc-emitted script", "script": show_prog(cases[k0].prog), "histories": [off_str(r[0]) for r in cases[k0].runs]})
-    return mism
+    ctx.count("real_dependence_not_explained_by_model", unexplained)
+    ctx.cov["conformance_scripts"] = len(per)
+    ctx.cov["conformance_runs_validated_by_tlc"] = len(observed)
+    ctx.cov["conformance_scripts_with_history_dependent_real_signature"] = sum(1 for rows in per.values() if len({r.sig("form") for r, _ in rows}) > 1)
+    k0 = sorted(per)[0]
+    ctx.sample({"kind": "tlc-emitted script", "script": show_prog(cases[k0].prog), "histories": [off_str(r.eff) for r, _ in per[k0][:5]], "model_signature_classes": len({m for _, m in per[k0]})})
+    return unexplained
 
 
 def hash_seeds(ctx):
@@ -1637,28 +1744,37 @@ def hash_seeds(ctx):
     return ["0", "1"] + extra
 
 
+def interleave(lists):
+    """Steps of several programs, level by level, rotating who goes first."""
+    out = []
+    g = len(lists)
+    for level in range(max(len(x) for x in lists)):
+        for k in range(g):
+            x = lists[(k + level) % g]
+            if level < len(x):
+                out.append(x[level])
+    return out
+
+
 def corpus_chains(ctx, base, rng):
+    """One fresh interpreter runs the interleaved chains of a group of programs (starting an
+    interpreter costs much more than a step); chains in priority order."""
     quick = ctx.tier == "quick"
     seeds = hash_seeds(ctx)
     chains = []
-    n = 0
 
-    def add(steps):
-        nonlocal n
-        chains.append({"seed": seeds[n % len(seeds)], "steps": steps})
-        n += 1
+    def add_groups(progs, source, maker):
+        G = 8 if source == "recipe" else 12
+        for k in range(0, len(progs), G):
+            lists = [maker(p) for p in progs[k : k + G]]
+            chains.append({"seed": seeds[len(chains) % len(seeds)], "steps": interleave(lists)})
 
-    for name in RECIPES:
-        prog = {"kind": "recipe", "name": name}
-        add(chain_standard(prog, "recipe"))
-        add(chain_phased(prog, "recipe", rng, base))
-        if not quick:
-            for _ in range(2):
-                add(chain_phased(prog, "recipe", rng, base))
-                add(chain_random(prog, "recipe", rng))
-            for k in KINDS:
-                add(chain_single(prog, "recipe", k))
-    want = 45 if quick else 700
+    recipes = [{"kind": "recipe", "name": name} for name in RECIPES]
+    add_groups(recipes, "recipe", lambda p: chain_standard(p, "recipe"))
+    for c in chains:
+        c["must"] = True  # never dropped for lack of time
+    add_groups(recipes[::-1], "recipe", lambda p: chain_phased(p, "recipe", rng, base))
+    want = 48 if quick else 600
     seen = set()
     scripts = []
     tries = 0
@@ -1671,45 +1787,56 @@ def corpus_chains(ctx, base, rng):
         if k in seen:
             continue
         seen.add(k)
-        scripts.append(sc)
-    for m, sc in enumerate(scripts):
-        prog = {"kind": "script", "script": sc}
-        if quick:
-            add(chain_standard(prog, "random-script") if m % 2 == 0 else chain_phased(prog, "random-script", rng, base))
-        else:
-            add(chain_standard(prog, "random-script"))
-            add(chain_phased(prog, "random-script", rng, base))
-            add(chain_single(prog, "random-script", rng.choice(KINDS)) if m % 2 else chain_random(prog, "random-script", rng))
+        scripts.append({"kind": "script", "script": sc})
+    if quick:
+        add_groups(scripts[::2], "random-script", lambda p: chain_standard(p, "random-script"))
+        add_groups(scripts[1::2], "random-script", lambda p: chain_phased(p, "random-script", rng, base))
+    else:
+        for k in KINDS:
+            add_groups(recipes, "recipe", lambda p, k=k: chain_single(p, "recipe", k))
+        for _ in range(2):
+            add_groups(recipes, "recipe", lambda p: chain_phased(p, "recipe", rng, base))
+            add_groups(recipes[::-1], "recipe", lambda p: chain_random(p, "recipe", rng))
+        add_groups(scripts, "random-script", lambda p: chain_standard(p, "random-script"))
+        add_groups(scripts[::-1], "random-script", lambda p: chain_phased(p, "random-script", rng, base))
+        add_groups(scripts, "random-script", lambda p: chain_single(p, "random-script", rng.choice(KINDS)) if rng.random() < 0.5 else chain_random(p, "random-script", rng))
     return chains
 
 
-def corpus_part(ctx, chk, base, rng):
+def corpus_part(ctx, chk, base, rng, deadline):
     chains = corpus_chains(ctx, base, rng)
-    cases = chk.run_chains(chains)
+    ctx.cov["corpus_chains_planned"] = len(chains)
+    t1 = time.time()
+    cases = chk.run_chains([c for c in chains if c.get("must")])
+    for k, c in chk.run_chains([c for c in chains if not c.get("must")], deadline).items():
+        if k in cases:
+            cases[k].runs += c.runs
+        else:
+            cases[k] = c
+    print(f"  corpus: {len(chains) - ctx.cov.get('chains_not_run_deadline', 0)} of {len(chains)} processes ({sum(len(c.runs) for c in cases.values())} runs of {len(cases)} programs) in {time.time() - t1:.1f}s", flush=True)
     stats = {"programs": 0, "invalid_random_scripts": 0, "runs": 0, "programs_with_discrepancy": 0}
     for key, case in cases.items():
-        before = len(chk.found)
         st = chk.judge(case)
         if st == "invalid":
             if case.source == "recipe":
-                r = case.runs[0][2]
+                r = case.runs[0].res
                 raise MachineryError(f"recipe {case.prog['name']} does not build: {r.get('error')}\n{r.get('tb', '')}")
             stats["invalid_random_scripts"] += 1
             continue
         stats["programs"] += 1
         stats["runs"] += len(case.runs)
-        stats["programs_with_discrepancy"] += len(chk.found) > before
+        stats["programs_with_discrepancy"] += st == "differs"
         ctx.count("programs_" + case.source.replace("-", "_"))
     ctx.cov["corpus"] = stats
     ctx.cov["hash_seeds"] = hash_seeds(ctx)
     if stats["programs"] < len(RECIPES):
         raise MachineryError("vacuous: fewer programs compared than recipes exist")
-    ok_scripts = [c for c in cases.values() if c.source == "random-script" and any(r[2].get("ok") for r in c.runs)]
+    ok_scripts = [c for c in cases.values() if c.source == "random-script" and any(r.ok for r in c.runs)]
     if ok_scripts:
         c = ok_scripts[0]
-        ctx.sample({"kind": "random script", "script": show_prog(c.prog), "histories": [off_str(r[0]) for r in c.runs[:6]], "seeds": sorted({str(r[1]) for r in c.runs})})
+        ctx.sample({"kind": "random script", "script": show_prog(c.prog), "histories": [off_str(r.eff) for r in c.runs[:6]], "seeds": sorted({r.seed for r in c.runs})})
     c = cases[prog_key({"kind": "recipe", "name": "measures"})]
-    ctx.sample({"kind": "recipe", "name": "measures", "runs": len(c.runs), "histories": [off_str(r[0]) for r in c.runs[:4]], "signature": c.runs[0][2]["sigs"]["form"][:16]})
+    ctx.sample({"kind": "recipe", "name": "measures", "runs": len(c.runs), "histories": [off_str(r.eff) for r in c.runs[:4]], "signature": c.runs[0].sig("form")[:16]})
     return stats
 
 
@@ -1722,58 +1849,57 @@ def run(ctx, args):
     t0 = time.time()
     ctx.rule = (
         "a case is one run of one build program (a hand written recipe, a seeded random script, or a script enumerated by TLC from "
-        "SigCounters.tla) in a process forked from a pristine interpreter started with a given PYTHONHASHSEED, after a prior history that "
-        "shifted the global counters (Index, Coefficient, Constant, Label, Mesh ufl_id, BaseFormOperator) by a recorded vector; observables: "
-        "form.signature(), the signature after renumber_indices, compute_expression_signature of bare expressions; all observables of one "
-        "program must be identical over all its runs; TLC-emitted behaviours additionally must reproduce the model's partition of histories; "
+        "SigCounters.tla) in a fresh interpreter started with a given PYTHONHASHSEED, after a prior history that "
+        "shifted the global counters (Index, Coefficient, Constant, Label, Mesh ufl_id, BaseFormOperator) by a recorded vector (object creation "
+        "by the harness and by the earlier steps of the same process); observables: form.signature(), the signature after renumber_indices, "
+        "compute_expression_signature of bare expressions; all observables of one program must be identical over all its runs; for TLC-"
+        "enumerated scripts TLC computes the model signature at exactly the observed counters and the partitions must agree; "
         "non-trivial = non-zero shift or hash seed != 0; distinct = (program, effective shift vector, hash seed)"
     )
     ctx.assume("creation order inside a program is the same in every run; only the starting values of the counters, the hash seed and the process differ")
-    ctx.assume("prior histories create and drop objects of the counted classes through the public constructors (coefficients on a space without mesh, constants on a user-defined domain) so that each counter can be shifted independently; the effective shift is read back from the counters (itertools.count copy / Mesh._ufl_global_id, read-only)")
+    ctx.assume("prior histories create and drop objects of the counted classes through the public constructors (coefficients on a space without mesh, constants on a user-defined domain, so that each counter can be shifted independently) or are earlier steps of the same process; the effective shift is read back from the counters (itertools.count copy / Mesh._ufl_global_id, read-only)")
     ctx.assume("forms with terminals of a second mesh in the integrand are valid input (multi-domain forms)")
     ctx.assume("SigCounters.tla models trees without shared sub-objects (cmp_expr as a function; its loop is bound by C29/Ordering.tla) and scalar/vector P1 spaces on triangles")
     ctx.assume("finite elements: vf/elements.py (adapted from the repository's test/utils.py)")
     pool = Pool()
     chk = Checker(ctx, pool)
-    pool.deadline = t0 + (48 if quick else 520)
-    # the import-time counters of a pristine interpreter (= Base of the model)
-    warm = pool.run([exact_chain({"kind": "recipe", "name": "const_product"}, ZERO)])
-    if not warm[0].get("steps") or not warm[0]["steps"][0].get("ok"):
-        raise MachineryError(f"worker does not run: {warm[0]}")
-    base = pool.base
+    # the import-time counters (= Base of the model): this process has only imported ufl so far;
+    # every interpreter of the pool must report the same values (Pool.check_hello)
+    import ufl  # noqa: F401
+
+    base = pool.base = read_counters()
     ctx.cov["import_time_counters"] = base
-    intended, emit, coded = plan_models(ctx)
+    intended, emit, coded, transcription = plan_models(ctx)
     rng = random.Random(1000003 * ctx.seed + (1 if quick else 2))
-    ex = ThreadPoolExecutor(max_workers=2 if quick else 1)
+    ex = ThreadPoolExecutor(max_workers=3)
     try:
         order = emit + coded + intended
         futs = {id(j): ex.submit(j.run, base) for j in order}
         # (c) the property on the corpus, while TLC runs
-        corpus_part(ctx, chk, base, rng)
-        chk.report()
+        corpus_part(ctx, chk, base, rng, t0 + (25 if quick else 380))
+        print(f"  [{time.time() - t0:.0f}s] corpus judged", flush=True)
         # (b) conformance of the transcription that matches the code under test
         for j in emit:
             futs[id(j)].result()
-        conformance(ctx, chk, emit, rng, 60 if quick else 1500)
-        chk.report()
+        conformance(ctx, chk, emit, transcription, base, rng, 40 if quick else 900, t0 + (38 if quick else 500))
+        print(f"  [{time.time() - t0:.0f}s] conformance done", flush=True)
         # (a) counterexamples of the machine as coded, replayed; the intended machine holds
-        infos = []
         for j in coded:
             futs[id(j)].result()
-            infos.append(replay_coded(ctx, chk, j))
-        ctx.cov["as_coded_models"] = infos
-        chk.report()
+        ctx.cov["as_coded_models"] = replay_coded(ctx, chk, coded)
+        chk.settle(1 if quick else 2)
+        print(f"  [{time.time() - t0:.0f}s] discrepancies reproduced in fresh processes", flush=True)
         for j in intended:
             futs[id(j)].result()
             check_intended(ctx, j)
     finally:
         ex.shutdown(wait=True, cancel_futures=True)
     ctx.cov["discrepancies_by_mechanism"] = chk.mech
-    ctx.cov["forked_processes"] = pool.forks
-    ctx.cov["interpreters"] = len(pool.hellos)
+    ctx.cov["fresh_interpreters"] = pool.forks
+    ctx.cov["distinct_hash_functions_observed"] = len({h[1] for h in pool.hellos})
     ctx.cov["exhaustive"] = False
     if ctx.cov.get("chains_not_run_deadline"):
-        print(f"  note: {ctx.cov['chains_not_run_deadline']} chains not run (time budget)", flush=True)
+        print(f"  note: {ctx.cov['chains_not_run_deadline']} processes not run (time budget)", flush=True)
 
 
 # ---- replay / selftest -------------------------------------------------------------------------------
@@ -1785,18 +1911,17 @@ def replay(ctx, doc):
     chains = [{"seed": c["seed"], "steps": c["steps"]} for c in r["chains"]]
     res = pool.run(chains)
     obs = []
+    nm = r.get("output")
     for c, x in zip(r["chains"], res):
         st = x["steps"][c.get("observe", len(c["steps"]) - 1)] if x.get("steps") else x
         obs.append(st)
-        print(f"replay: {show_prog(r['program'])}  seed={c['seed']}  history={off_str(st.get('eff') or {})}  ->  ", end="")
+        print(f"replay: {show_prog(r['program'])}  PYTHONHASHSEED={c['seed']}  history={off_str(st.get('eff') or {})}  ->  ", end="")
         if st.get("ok"):
-            nm = r.get("output")
             print({k: v[:16] for k, v in st["sigs"].items() if nm is None or k == nm})
         else:
             print("ERROR", st.get("error"))
     oks = [o for o in obs if o.get("ok")]
-    nm = r.get("output")
-    differ = len(oks) != len(obs) or any(o["sigs"] != oks[0]["sigs"] if nm is None else o["sigs"][nm] != oks[0]["sigs"][nm] for o in oks)
+    differ = len(oks) != len(obs) or any((o["sigs"] != oks[0]["sigs"]) if nm is None else (o["sigs"][nm] != oks[0]["sigs"][nm]) for o in oks)
     if differ:
         ctx.n_viol += 1
         print(f"  DIFFERENT signatures for the same program [{doc.get('fingerprint')}]")
@@ -1835,7 +1960,7 @@ class _Probe:
 
 def selftest(ctx):
     """The comparison must reject (1) a recipe whose creation order depends on the history, (2) a
-    corrupted signature, (3) a corrupted model prediction; and must accept a clean program."""
+    corrupted signature, (3) a corrupted model prediction; and must accept the uncorrupted inputs."""
     pool = Pool()
     # 1. order-dependent recipe must be flagged
     p = _Probe(ctx)
@@ -1843,50 +1968,38 @@ def selftest(ctx):
     prog = {"kind": "selftest-order-dependent"}
     cases = chk.run_chains([{"seed": "0", "steps": chain_single(prog, "selftest", "Constant")[:5]}])
     (case,) = cases.values()
-    chk.judge(case)
-    chk.report()
-    if not p.v:
+    if chk.judge(case) != "differs":
         raise MachineryError("selftest: a recipe whose creation order depends on the history was not flagged")
+    chk.settle(1)
+    if not p.v:
+        raise MachineryError("selftest: the order-dependent recipe was not reported")
     print("selftest 1: order-dependent recipe flagged as", sorted(set(p.v)), flush=True)
-    # 2. a clean program passes; a corrupted signature is rejected
+    # 2. a corrupted signature is rejected
     p = _Probe(ctx)
     chk = Checker(p, pool)
     prog = {"kind": "recipe", "name": "grad_div_operators"}
-    ch = {"seed": "1", "steps": chain_standard(prog, "selftest")[:4]}
-    cases = chk.run_chains([ch])
+    cases = chk.run_chains([{"seed": "1", "steps": chain_standard(prog, "selftest")[:3]}])
     (case,) = cases.values()
-    chk.judge(case)
-    if chk.found:
-        print("selftest 2: note: the clean recipe already shows a discrepancy in the code under test:", [f[0] for f in chk.found])
-    chk.found = []
-    run = case.runs[2]
-    run[2]["sigs"]["form"] = "0" * 128
-    try:
-        chk.judge(case)
-        flagged = bool(chk.found)
-    except MachineryError:
-        flagged = True  # the diagnosis could not reproduce a fabricated deviation: also a rejection
-    if not flagged and not any("process-state" in f[0] for f in chk.found):
+    clean = chk.judge(case)
+    chk.pending, chk.direct = {}, []
+    case.runs[2].res["sigs"]["form"] = "0" * 128
+    if chk.judge(case) != "differs":
         raise MachineryError("selftest: a corrupted signature was accepted")
-    print("selftest 2: corrupted signature rejected", sorted({f[0] for f in chk.found}), flush=True)
+    chk.settle(1)  # fresh processes cannot reproduce a fabricated deviation
+    if clean == "ok" and not any("process-state" in f for f in p.v):
+        raise MachineryError(f"selftest: fabricated deviation reported as {p.v}")
+    print("selftest 2: corrupted signature rejected", sorted(set(p.v)), flush=True)
     # 3. a corrupted model prediction is rejected by the conformance comparison
     base = pool.base
     cmp_of, zerosig = probe_transcription()
     comparator = cmp_of["const"] if len(set(cmp_of.values())) == 1 else "mixed"
+    tr = (comparator, cmp_of, zerosig)
     j = Job("selftest emit", FAM_CONST, comparator, zerosig, 1, 4, emit=True, cmp_of=cmp_of, workers=2).run(base)
     p = _Probe(ctx)
     chk = Checker(p, pool)
-    rng = random.Random(5)
-    conformance(p, chk, [j], rng, 12)  # clean: must not raise
-    # corrupt: make the model claim that all histories of every script give different signatures
-    docs = tlc.decode_prints(j.res)
-    lines = []
-    for n, d in enumerate(docs):
-        d["sig"]["domain"] = n
-        lines.append(json.dumps(json.dumps(d)))
-    j.res.prints = lines
+    conformance(p, chk, [j], tr, base, random.Random(5), 8)  # clean: must not raise
     try:
-        conformance(p, chk, [j], random.Random(5), 12)
+        conformance(p, chk, [j], tr, base, random.Random(5), 8, corrupt=True)
         raise MachineryError("selftest: a corrupted model prediction was accepted")
     except MachineryError as e:
         if "does not match the code under test" not in str(e):
